@@ -42,10 +42,12 @@ def pl_str(pl):
 
 
 def norm_projs(projs):
-    """Cancel '&' followed by deref."""
+    """Cancel '&' followed by deref, and deref followed by '&' (reborrow): both are the identity on provenance."""
     out = []
     for p in projs:
         if p in ("deref", "rawderef") and out and out[-1] == "&":
+            out.pop()
+        elif p == "&" and out and out[-1] in ("deref", "rawderef"):
             out.pop()
         else:
             out.append(p)
@@ -544,7 +546,7 @@ class Tracer:
                     return self.operand(a0, marker + list(rest))
                 pl = a0["pl"]
                 return self._trace(pl["l"], tuple(norm_projs(pl_projs(pl) + marker + list(rest))), visited, depth + 1)
-            return {Leaf(("call", (callee_name(t), bb), tuple(rest)))}
+            return {Leaf(("call", (callee_def(t), callee_name(t), bb), tuple(rest)))}
         if k in ("bin", "un", "discr", "repeat", "setdiscr", "tls"):
             return {Leaf(("op", (k, rv.get("op") if isinstance(rv.get("op"), str) else None, bb, idx), tuple(rest)))}
         return {Leaf(("unknown", k, tuple(rest)))}
@@ -896,3 +898,245 @@ class Report:
 
     def note(self, text):
         self.notes.append(text)
+
+
+# --------------------------------------------------------------------------- common queries
+
+def find_aggs(body, adt=None, variant=None, blocks=None):
+    """yield (bb, idx, stmt) for Aggregate constructions of adt(::variant)"""
+    for bb, idx, s in body.stmts(blocks):
+        if idx == "t" or s["k"] != "assign":
+            continue
+        rv = s["rv"]
+        if rv["k"] != "agg" or rv.get("ak") != "adt":
+            continue
+        if adt is not None and not (rv["adt"] == adt or rv["adt"].endswith("::" + adt)):
+            continue
+        if variant is not None and rv["variant"] != variant:
+            continue
+        yield bb, idx, s
+
+
+def find_calls(body, names=None, pred=None, blocks=None):
+    """yield (bb, term) for calls whose def/res path is in names (exact or '::'-suffix match)"""
+    for bb, t in body.calls(blocks):
+        if names is not None:
+            cn = callee_names(t)
+            hit = False
+            for n in names:
+                for c in cn:
+                    if c == n or c.endswith("::" + n):
+                        hit = True
+            if not hit:
+                continue
+        if pred is not None and not pred(t):
+            continue
+        yield bb, t
+
+
+def name_matches(path, names):
+    for n in names:
+        if path == n or path.endswith("::" + n):
+            return True
+    return False
+
+
+def place_has_field(pl, field):
+    return any(isinstance(p, dict) and p.get("n") == field for p in pl["p"])
+
+
+def leaf_str(leaf):
+    k, d, projs = leaf
+    if k == "call":
+        d = d[0]
+    return "%s(%s)%s" % (k, d, "".join(projs))
+
+
+def leaf_call_is(leaf, *names):
+    """leaf is a call whose generic def path or resolved path matches one of names"""
+    if leaf[0] != "call":
+        return False
+    return name_matches(leaf[1][0], names) or name_matches(leaf[1][1], names)
+
+
+# --------------------------------------------------------------------------- variant walk (finite tag domain)
+
+class VariantWalk:
+    """Conditional propagation of the feasible set of enum-variant tuples through a CFG.
+
+    coords(leaf) -> index of the tuple coordinate a traced place designates, or None.
+    summaries: {callee name suffix: {variant: 'some'|'none'|'maybe'}} for Option-returning functions of ONE
+    coordinate (their first argument); used to refine on `match f(x) { Some/None }` edges.
+    """
+
+    def __init__(self, body, adt, arity, coords, summaries=None, transparent=None):
+        self.b = body
+        self.adt = adt
+        self.arity = arity
+        self.coords = coords
+        self.summaries = summaries or {}
+        self.tr = Tracer(body, transparent=transparent)
+        self.ef = EdgeFacts(body, body.crate)
+        self._edge_cache = {}
+
+    def all_tuples(self):
+        import itertools
+        names = self.adt.variant_names()
+        return frozenset(itertools.product(names, repeat=self.arity))
+
+    def coord_of(self, leaves):
+        cs = set()
+        for l in leaves:
+            if l.kind == "cycle":
+                continue
+            cs.add(self.coords(l))
+        if len(cs) == 1:
+            return next(iter(cs))
+        return None
+
+    def edge_filters(self, bb):
+        """for switch block bb: dict target -> list of (coord, allowed variant set)"""
+        if bb in self._edge_cache:
+            return self._edge_cache[bb]
+        res = {}
+        t = self.b.term(bb)
+        if t["k"] == "switch" and t["op"]["k"] != "const" and not t["op"]["pl"]["p"]:
+            d = self.ef.single_def(t["op"]["pl"]["l"])
+            if d is not None and d[3]["k"] == "discr":
+                rv = d[3]
+                leaves = self.tr.place(rv["pl"])
+                dadt = self.b.crate.adts.get(rv["adt"])
+                if rv["adt"] == self.adt.path:
+                    c = self.coord_of(leaves)
+                    if c is not None:
+                        for tgt, facts in self.ef.facts_for_switch(bb).items():
+                            for f in facts:
+                                if f[0] == "variant" and f[4]:
+                                    res.setdefault(tgt, []).append((c, frozenset(f[3])))
+                elif dadt is not None and rv["adt"] in ("std::option::Option", "std::ops::ControlFlow"):
+                    # Option<..> returned by a summarised function of one coordinate
+                    info = self.summary_of(leaves)
+                    if info is not None:
+                        c, summ = info
+                        for tgt, facts in self.ef.facts_for_switch(bb).items():
+                            for f in facts:
+                                if f[0] != "variant" or not f[4]:
+                                    continue
+                                names = set(f[3])
+                                some_names = {"Some", "Continue"}
+                                none_names = {"None", "Break"}
+                                allowed = set()
+                                if names & some_names:
+                                    allowed |= {v for v, s in summ.items() if s != "none"}
+                                if names & none_names:
+                                    allowed |= {v for v, s in summ.items() if s != "some"}
+                                if names - some_names - none_names:
+                                    allowed = set(summ)
+                                res.setdefault(tgt, []).append((c, frozenset(allowed)))
+        self._edge_cache[bb] = res
+        return res
+
+    def summary_of(self, leaves):
+        found = None
+        for l in leaves:
+            if l.kind == "cycle":
+                continue
+            if l.kind != "call":
+                return None
+            # only the Option itself (or through Try::branch), not a payload of it
+            if any(not p.startswith("via:") for p in l.projs):
+                return None
+            summ = None
+            for name, s in self.summaries.items():
+                if name_matches(l.detail[0], [name]) or name_matches(l.detail[1], [name]):
+                    summ = s
+            if summ is None:
+                return None
+            call = self.b.term(l.detail[2])
+            if not call["args"]:
+                return None
+            c = self.coord_of(self.tr.operand(call["args"][0]))
+            if c is None:
+                return None
+            if found is not None and found != (c, id(summ)):
+                return None
+            found = (c, id(summ))
+            result = (c, summ)
+        return result if found is not None else None
+
+    def run(self, init=None):
+        """returns dict bb -> frozenset of feasible tuples at block entry"""
+        b = self.b
+        init = self.all_tuples() if init is None else init
+        state = {0: init}
+        work = [0]
+        while work:
+            bb = work.pop()
+            cur = state[bb]
+            filters = self.edge_filters(bb)
+            for tgt in b.succ[bb]:
+                ns = cur
+                for (c, allowed) in filters.get(tgt, []):
+                    ns = frozenset(t for t in ns if t[c] in allowed)
+                old = state.get(tgt, frozenset())
+                new = old | ns
+                if new != old:
+                    state[tgt] = new
+                    work.append(tgt)
+        return state
+
+
+def option_table(body, adt, self_coord_param=1):
+    """R-TABLE for `fn f(&self) -> Option<_>` matching on an enum: variant -> 'some' | 'none' | 'maybe'."""
+    def coords(leaf):
+        if leaf.kind == "param" and leaf.detail == self_coord_param:
+            return 0
+        return None
+    vw = VariantWalk(body, adt, 1, coords)
+    st = vw.run()
+    outcome = {v: set() for v in adt.variant_names()}
+    for bb, idx, s in body.stmts():
+        if idx == "t":
+            if s["k"] == "call" and s["dest"]["l"] == 0 and not s["dest"]["p"]:
+                for (v,) in st.get(bb, ()):
+                    outcome[v].add("maybe")
+            continue
+        if s["k"] == "assign" and s["pl"]["l"] == 0 and not s["pl"]["p"]:
+            rv = s["rv"]
+            cls = "maybe"
+            if rv["k"] == "agg" and rv.get("adt") == "std::option::Option":
+                cls = "some" if rv["variant"] == "Some" else "none"
+            for (v,) in st.get(bb, ()):
+                outcome[v].add(cls)
+    table = {}
+    for v, o in outcome.items():
+        if o == {"some"}:
+            table[v] = "some"
+        elif o == {"none"}:
+            table[v] = "none"
+        else:
+            table[v] = "maybe"
+    return table
+
+
+def const_table(body, adt, self_coord_param=1):
+    """R-TABLE for `fn f(&T) -> <const>` matching on an enum: variant -> set of constants assigned to _0."""
+    def coords(leaf):
+        if leaf.kind == "param" and leaf.detail == self_coord_param:
+            return 0
+        return None
+    vw = VariantWalk(body, adt, 1, coords)
+    st = vw.run()
+    out = {v: set() for v in adt.variant_names()}
+    for bb, idx, s in body.stmts():
+        if idx != "t" and s["k"] == "assign" and s["pl"]["l"] == 0 and not s["pl"]["p"]:
+            rv = s["rv"]
+            val = "?"
+            if rv["k"] == "use" and rv["op"]["k"] == "const":
+                val = rv["op"].get("v", "?")
+            for (v,) in st.get(bb, ()):
+                out[v].add(val)
+        elif idx == "t" and s["k"] == "call" and s["dest"]["l"] == 0:
+            for (v,) in st.get(bb, ()):
+                out[v].add("call")
+    return out
